@@ -133,6 +133,20 @@ var c13Hyphens = hx.Define("c13.hyphens", func(c *c13Case, s *hx.Sub) *hx.Violat
 		s.Class("both-fail")
 		return nil
 	}
+	// (0) "a template without hyphens loses nothing": the hyphen-free spelling renders what the reference
+	// interpreter (which knows no whitespace control at all) gives, white space included
+	if m := hx.NewModel(b.Logical()); true {
+		if want, st := m.Render(c.P.Nodes); st == hx.StOK {
+			got := o0.Out
+			if hasNode(c.P.Nodes, "tablerow") {
+				got = rowTags.ReplaceAllString(got, "")
+			}
+			if got != want {
+				return hx.V("c13:hyphen-free-differs", "%q (no whitespace-control hyphen in it) renders %q; the reference interpreter gives %q", plain, o0.Out, want)
+			}
+			s.Class("hyphen-free-checked")
+		}
+	}
 	// (A) equal after deleting all whitespace
 	if stripWS(o0.Out) != stripWS(o1.Out) {
 		return hx.V("c13:non-whitespace-changed", "%q renders %q; with hyphens %q renders %q: hyphens must never remove anything but whitespace", plain, o0.Out, hyph, o1.Out)
@@ -177,6 +191,12 @@ func TestC13(t *testing.T) {
 		// values with white space at their edges, next to hyphenated tags
 		p.Binds["s"] = hx.SStr(rapid.SampledFrom([]string{"  s  ", "v", " lead", "trail \n", "\t", "", "déjà", "à ", "\u00a0nb"}).Draw(t, "sval"))
 		p.Binds["u"] = hx.SStr(rapid.SampledFrom([]string{" u ", "w\n", ""}).Draw(t, "uval"))
+		// objects whose expression begins with a minus sign, with white space before them
+		if rapid.IntRange(0, 3).Draw(t, "neg") == 0 {
+			at := rapid.IntRange(0, len(p.Nodes)).Draw(t, "negat")
+			neg := []*hx.N{hx.Text(rapid.SampledFrom([]string{"a  ", " \n\t", "x"}).Draw(t, "negtext")), hx.Obj(hx.Lit(rapid.SampledFrom([]*hx.Spec{hx.SInt(-1), hx.SFloat(-2.5), hx.SInt(-30)}).Draw(t, "neglit"))), hx.Text("  b")}
+			p.Nodes = append(p.Nodes[:at:at], append(neg, p.Nodes[at:]...)...)
+		}
 		k := hx.CountTags(hx.Tokens(p.Nodes, nil))
 		if k == 0 {
 			return
